@@ -382,8 +382,16 @@ fn dash_unescape_and_trim(text: &str) -> String {
 /// Does the remaining buffer contain any non-whitespace characters?
 fn has_rest<R: BufRead>(mut b: R) -> Result<bool> {
     let mut buf = [0u8; 64];
-    while b.read(&mut buf)? > 0 {
-        if buf.iter().any(|&c| !char::from(c).is_ascii_whitespace()) {
+    loop {
+        let read = b.read(&mut buf)?;
+        if read == 0 {
+            break;
+        }
+        // only look at what was just read, not at what is left in the buffer from before
+        let Some(data) = buf.get(..read) else {
+            break;
+        };
+        if data.iter().any(|&c| !char::from(c).is_ascii_whitespace()) {
             return Ok(true);
         }
     }
